@@ -86,7 +86,16 @@ def run_pair_check(pid, tier, mcs, max_progs, mult=1, assumptions=()):
             w2, r2 = split_traces(f2, rname)
             rr = core.validate(mod, cfg, w2 if side == "w" else r2, rname)
             if not rr["rejections"]:
-                raise core.Infra("rejection of %s did not reproduce" % rj["tid"])
+                # not reproducible alone: does it depend on what ran before it in the same process?
+                seq = core.history_of(conc, base)
+                core.rundir(rname)
+                f3 = core.drive("pair", seq, rname, shards=1)
+                w3, r3 = split_traces(f3, rname)
+                rr = core.validate(mod, cfg, w3 if side == "w" else r3, rname, max_rej=50)
+                rr["rejections"] = [x for x in rr["rejections"] if x["tid"].rsplit("/", 1)[0] == base]
+                if not rr["rejections"]:
+                    raise core.Infra("rejection of %s did not reproduce" % rj["tid"])
+                prog = dict(id=base, batch=seq)
             rj2 = rr["rejections"][0]
             violations.append(core.save_replay(pid, "pair", prog, rj2["trace"], "%s side: event %d not explained: %s" % (
                 "writer" if side == "w" else "reader", rj2["index"], json.dumps(rj2["event"])[:500])))
